@@ -15,7 +15,8 @@ FUNCTIONS = ["AutomationMgr::" + m for m in METHODS] + ["AutomationMgr::createBi
 MEMBERS = ["slots", "nslots", "per_slot", "active_slot", "learn_queue_len", "impl", "p", "instance", "backend",
            "damaged", "NRPN"]
 TRUSTED = [
-    "CBMC 6.11.0 (goto-cc, cbmc; built-in SAT back end), its IEEE-754 float model (round to nearest), va_list, memset models",
+    "CBMC 6.11.0 (goto-cc, cbmc) with kissat as SAT back end (--external-sat-solver; cbmc's built-in solver if kissat is absent), "
+    "its IEEE-754 float model (round to nearest), va_list and memset models",
     "x86-64 LP64 bit-vector semantics, FLT_EVAL_METHOD 0; shipped flags -DNDEBUG",
     "extraction rules of DESIGN section 4 (R2) are meaning-preserving: method (implicit this -> self, members through "
     "#define m (self->m), sibling calls through #define m(...) AutomationMgr_m(self, ...)), auto-ref, struct-lift "
@@ -26,8 +27,9 @@ TRUSTED = [
 ASSUMPTIONS = [
     "PARTIAL CLAIM: learn queue + bindings (all operations) and the linear mapping. Not covered: log scale (expf/logf), the "
     "metadata part of createBinding/setSlotSubPath (Ports::apropos, atof), roundf for non-integral integer bounds, "
-    "monotonicity in the slot value and exactness of the end points for float parameters (CBMC does not decide them in the "
-    "time box: undecided, NOT claimed; set C19_FP_HARD=1 to attempt them in the thorough tier)",
+    "MONOTONICITY in the slot value (undecided: not finished by CBMC/kissat in 60 min - two coupled 24x24 bit multipliers; "
+    "NOT claimed; C19_FP_HARD=1 attempts it in the thorough tier), linearity between the end points for float parameters "
+    "(same), end points for arbitrary float bounds (they are met only up to rounding: findings/c19_endpoint_rounding.c)",
     "induction hypothesis of every operation obligation: INV = LQ && UNIQ(midi_cc) && UNIQ(midi_nrpn) && NRPN_RANGE "
     "(spec/lq_spec.h); every other field of the manager is unconstrained (symbolic)",
     "base case (constructor establishes INV) is decided by exhaustive native execution of the real constructor over the "
@@ -51,8 +53,9 @@ ASSUMPTIONS = [
     "the 18 configurations with exact-size heap objects",
     "numeric obligations (linear scale, control_scale != 1): param_min <= param_max finite with |.| <= 2^100, control "
     "points finite with |.| <= 2^100 (updateMapping yields that for |gain|,|offset| <= 2^20: obligation "
-    "updateMapping.points), slot value finite; integer parameters: integral bounds with |.| <= 2^30; exact end points: "
-    "min=km/256, max=kx/256, |km|,|kx| <= 2^16, integer parameter (multiples of 256)",
+    "updateMapping.points), slot value finite; integer parameters: integral bounds with |.| <= 2^30; exact end points "
+    "(thorough tier): min=km/256, max=kx/256 with integers |km|,|kx| <= 2^16 (integer parameters: multiples of 256; "
+    "toggles: [0,1])",
     "control point arrays have >= 4 elements (updateMapping writes [0..3] whatever npoints is)",
     "CBMC 6.11 does not apply the float->double default promotion to variadic arguments; the recorder reads an 'f' value "
     "in the width CBMC passes it (natively: double)",
@@ -67,8 +70,9 @@ EXPLANATION = ("History claim by induction over operations: INV (learn_queue_len
                "the statement demands (remove / pop head and bind it to exactly the controller moved / append / unchanged). "
                "All loops are bounded by nslots <= 6, per_slot <= 3: the unwinding is complete (unwinding assertions). "
                "Emitted message: address/type/exactly-once for every index; value in [min,max] for float and integer "
-               "parameters; control points finite and ordered for non-negative gain; exact end points at default "
-               "gain/offset for integer parameters.")
+               "parameters; control points finite and ordered for non-negative gain; thorough tier: exact end points at "
+               "default gain/offset (float, integer, toggle parameters with bounds k/256) and linearity in between for "
+               "integer parameters. Monotonicity in the slot value is NOT decided and not claimed.")
 QUEUE_TOKENS = r"\b(learning|learn_queue_len|midi_cc|midi_nrpn|NRPN)\b"
 
 
@@ -234,6 +238,7 @@ def extract_automations(ctx):
 
 def prepare(ctx):
     _guard_vlib()
+    ctx.notes.append("SAT back end: %s" % ("kissat (external)" if SOLVER else "cbmc built-in (kissat not found)"))
     extract_automations(ctx)
 
 
@@ -263,6 +268,11 @@ EMIT = "harness/C19/emit.c"
 # every loop of code, spec and harness is bounded by nslots <= 6, per_slot <= 3, 4 control points, 4 NRPN registers:
 # --unwind 8 unwinds all of them completely; the unwinding assertions prove that (a failure would be exit 2)
 UNWIND = ["--object-bits", "12", "--unwind", "8", "--unwinding-assertions"]
+# SAT back end: kissat through cbmc's --external-sat-solver. cbmc's built-in minisat gets stuck (> 15 min) on about 1 % of
+# these instances (e.g. setSlot.contract_s0.n3x2, 122k variables) that kissat decides in seconds, and does not finish the
+# floating-point end-point obligations at all. Without kissat on the PATH the built-in solver is used (noted in evidence).
+import shutil
+SOLVER = "kissat" if shutil.which("kissat") else None
 REPL = {"C19_REPLACE_setSlot": None}
 SPACE = "nslots 1..6 x per_slot 1..3 (symbolic), all field values symbolic under INV"
 
@@ -298,7 +308,7 @@ def op_obligations(ctx):
     for name, entry, defs in _op_rows(6):
         d = dict(defs, NS="6", PS="3", SYMCFG=None)
         obls.append(Obl("C19.%s" % name, "C19", OPS, entry=entry, defines=d, mode="proof", replayable=True, cbmc=UNWIND,
-                        timeout=900, bound=SPACE, functions=[entry[2:]], case={"nslots": "1..6", "per_slot": "1..3"}))
+                        timeout=900, bound=SPACE, functions=[entry[2:]], case={"nslots": "1..6", "per_slot": "1..3"}, solver=SOLVER))
     if ctx.tier != "quick":
         # (2) every configuration on its own, exact-size heap objects (an access beyond nslots/per_slot traps)
         for ns in range(1, 7):
@@ -306,7 +316,7 @@ def op_obligations(ctx):
                 for name, entry, defs in _op_rows(ns):
                     d = dict(defs, NS=str(ns), PS=str(ps))
                     obls.append(Obl("C19.%s.n%dx%d" % (name, ns, ps), "C19", OPS, entry=entry, defines=d, mode="proof",
-                                    replayable=True, cbmc=UNWIND, timeout=900,
+                                    replayable=True, cbmc=UNWIND, timeout=900, solver=SOLVER,
                                     bound="nslots=%d, per_slot=%d exactly (exact-size objects)" % (ns, ps),
                                     case={"nslots": ns, "per_slot": ps}))
         # (3) handleMidi end to end (real setSlot/setSlotSub instead of the setSlot contract), small configuration
@@ -315,7 +325,7 @@ def op_obligations(ctx):
                 d = {k: v for k, v in defs.items() if k != "C19_REPLACE_setSlot"}
                 d.update(NS="2", PS="2")
                 obls.append(Obl("C19.%s.end_to_end.n2x2" % name, "C19", OPS, entry=entry, defines=d, mode="proof",
-                                replayable=True, cbmc=UNWIND, timeout=900, bound="nslots=2, per_slot=2, no callee replaced",
+                                replayable=True, cbmc=UNWIND, timeout=900, solver=SOLVER, bound="nslots=2, per_slot=2, no callee replaced",
                                 case={"nslots": 2, "per_slot": 2}))
     return obls
 
@@ -325,18 +335,19 @@ def emit_obligations(ctx):
     def fp(name, entry, defs, timeout=280, **kw):
         d = dict(defs, NS="2", PS="2")
         obls.append(Obl("C19.%s" % name, "C19", EMIT, entry=entry, defines=d, mode="proof", replayable=True, cbmc=UNWIND,
-                        timeout=timeout, bound="one automation (constant indices), numeric domain D_* of harness/C19/emit.c", **kw))
+                        timeout=timeout, bound="one automation (constant indices), numeric domain D_* of harness/C19/emit.c",
+                        **dict(dict(solver=SOLVER), **kw)))
     # address / type / exactly one message: every index (symbolic), whole configuration space, no floating point
     obls.append(Obl("C19.emit.addr_type", "C19", EMIT, entry="h_emit_addr_type", defines={"NS": "6", "PS": "3", "SYMCFG": None},
                     mode="proof", replayable=True, cbmc=UNWIND, timeout=600, bound=SPACE + ", every int as slot/sub index",
-                    functions=["setSlotSub"]))
+                    functions=["setSlotSub"], solver=SOLVER))
     fp("emit.range_f", "h_emit_range", {})
     fp("emit.range_i", "h_emit_range", {"TYPE_I": None})
     fp("updateMapping.points", "h_updateMapping_points", {})
     if ctx.tier != "quick":
         # exact end points / linearity at default gain and offset: decided with kissat (cbmc's built-in minisat does
         # not finish them); measured 110..460 s each on a heavily loaded machine
-        K = dict(solver="kissat")
+        K = dict(solver=SOLVER)
         fp("emit.default_endpoints_i", "h_emit_default_linear", {"TYPE_I": None}, timeout=1200, **K)
         fp("emit.default_endpoints_f", "h_emit_default_linear", {}, timeout=1200, **K)
         fp("emit.default_endpoints_T", "h_emit_default_linear", {"TYPE_T": None}, timeout=1200, **K)
@@ -357,7 +368,7 @@ def canaries(ctx):
     def can(name, harness, entry, defs, **kw):
         d = dict(defs, NS="3", PS="2")
         c.append(Obl("C19.canary.%s" % name, "C19", harness, entry=entry, defines=d, mode="proof", cbmc=UNWIND,
-                     canary=True, replayable=False, **dict(dict(timeout=600), **kw)))
+                     canary=True, replayable=False, **dict(dict(timeout=600), **kw)))   # many failing goals: incremental built-in solver
     can("clearSlot", OPS, "h_clearSlot", {"SYMCFG": None})
     can("handleMidi", OPS, "h_handleMidi", dict(REPL, SYMCFG=None))
     can("enqueue", OPS, "h_enqueue", {"SYMCFG": None})
@@ -369,7 +380,7 @@ def canaries(ctx):
     can("emit.range_i", EMIT, "h_emit_range", {"TYPE_I": None})
     can("updateMapping.points", EMIT, "h_updateMapping_points", {})
     if ctx.tier != "quick":
-        K = dict(solver="kissat", timeout=1200)     # the canary run also has to decide the expensive assertions
+        K = dict(solver=SOLVER, timeout=1200)     # the canary run also has to decide the expensive assertions
         can("emit.default_endpoints_i", EMIT, "h_emit_default_linear", {"TYPE_I": None}, **K)
         can("emit.default_endpoints_f", EMIT, "h_emit_default_linear", {}, **K)
         can("emit.default_endpoints_T", EMIT, "h_emit_default_linear", {"TYPE_T": None}, **K)
